@@ -1,6 +1,7 @@
 """C12 -- root and semantic-literal queries agree with what the pattern matches (engine A)."""
 import gen
 import progs
+import roles as roles_mod
 from core import probe, member, inter, diff, cat, SEP, tier, main_wrapper, Inconclusive
 from gen import rep_bounds
 from session import Session
@@ -103,8 +104,15 @@ def run():
     for r in recs:
         if r["row"]["root"] == "Sometimes":
             sometimes += 1
-            rep.candidate({"glob-sometimes-rooted"},
-                          {"short": {"program": r["text"], "has_root": "Sometimes"}})
+            # the known C06 weakness (branches nested two levels deep) explains a Sometimes only
+            # for expressions of that class; `{/a,b}` building would be a new violation
+            ast = r["ast"]
+            if ast is None or gen.show(ast) != r["text"]:
+                ast = gen.parse(r["text"])
+            roles = {"glob-sometimes-rooted"}
+            if ast is not None and roles_mod.boundary_at_nested_branch_edge(ast):
+                roles = {"glob-sometimes-rooted-nested-branch-edge"}
+            rep.candidate(roles, {"short": {"program": r["text"], "has_root": "Sometimes"}})
         if r["ast_ok"]:
             truth = has_dot_component(r["ast"], True, True)
             if truth:
